@@ -253,7 +253,7 @@ impl CaseEngine for C24 {
         args.u64("n", if args.thorough() { 32 } else { 6 }) as usize
     }
     fn case_timeout_s(&self, _args: &Args) -> u64 {
-        900
+        180
     }
     fn alloc_cap(&self) -> usize {
         0
@@ -823,7 +823,7 @@ impl CaseEngine for C25 {
         args.u64("n", if args.thorough() { 16 } else { 4 }) as usize
     }
     fn case_timeout_s(&self, _args: &Args) -> u64 {
-        900
+        180
     }
     fn alloc_cap(&self) -> usize {
         0
@@ -1154,7 +1154,7 @@ impl CaseEngine for C26 {
         args.u64("n", if args.thorough() { 12 } else { 3 }) as usize
     }
     fn case_timeout_s(&self, _args: &Args) -> u64 {
-        900
+        180
     }
     fn alloc_cap(&self) -> usize {
         0
